@@ -402,23 +402,60 @@ def run(ctx):
 
     c11.descriptor_rule(ctx)
 
-    # ---- R14.5 read-after-flag
+    # ---- R14.5 read-after-flag, interpreted (the `if self.needUpdate:` shape used to be matched textually: it fired on a
+    # guard-clause rewrite, refactored/C03-R8).  The base getter is driven on a recorder: dirty -> one assembly, flag lowered;
+    # clean -> no assembly, the same values; Need_Update() -> one more assembly.  The per-problem overrides are R14.21.
     r5 = ctx.rule("R14.5", "Get_K_C_M_F re-assembles iff the flag is set and clears it afterwards", min_instances=1)
-    for ci in [simu] + repo.subclasses(simu):
-        f = ci.methods.get("Get_K_C_M_F")
-        if f is None or f.cls is not ci:
-            continue
-        r5.instance(fn=f.qualname)
-        ok = False
-        for n in ast.walk(f.node):
-            if isinstance(n, ast.If) and ("needUpdate" in norm_text(n.test) or "updated" in norm_text(n.test).lower()):
-                body = norm_text(ast.Module(body=n.body, type_ignores=[]))
-                if "Assembly(" in body and ("Need_Update(False)" in body or "= True" in body):
-                    ok = True
-        if ok:
-            r5.ok(f"{ci.name}.Get_K_C_M_F: assemble when dirty, then mark clean")
-        else:
-            r5.fail(f.qualname, "flag", f.file, f.lineno, f"{ci.name}.Get_K_C_M_F", "does not (assemble when the flag is set, then clear it)")
+    from ..xeval import Interp as _I5, XObj as _X5, XRaise as _XR5
+    from types import SimpleNamespace as _NS5
+
+    f5 = simu.methods["Get_K_C_M_F"]
+    r5.instance(fn=f5.qualname)
+    calls5 = []
+
+    class _Mat:
+        _xeval_open = True
+
+        def __init__(self, tag):
+            self.tag = tag
+
+        def copy(self):
+            return _Mat(self.tag)
+
+    def _assembly(pt=None):
+        calls5.append(pt)
+        k = len(calls5)
+        return tuple(_Mat(f"{nm}{k}") for nm in "KCMF")
+
+    o5 = _X5(simu, {"Assembly": _assembly, "problemType": "pt", "Get_problemTypes": lambda: ["pt"], "_Notify": lambda *a, **k: None})
+    I5 = _I5(repo, extra_builtins={"MPI_SIZE": 1})
+    tags = lambda t: [getattr(x, "tag", None) for x in t]
+    try:
+        I5.call_function(repo.lookup_method(simu, "Need_Update"), [], self_obj=o5)
+        a1 = I5.call_function(f5, [], self_obj=o5)
+        n1 = len(calls5)
+        a2 = I5.call_function(f5, [], self_obj=o5)
+        n2 = len(calls5)
+        I5.call_function(repo.lookup_method(simu, "Need_Update"), [], self_obj=o5)
+        a3 = I5.call_function(f5, [], self_obj=o5)
+        n3 = len(calls5)
+        bad5 = None
+        if n1 != 1:
+            bad5 = f"a dirty simulation assembles {n1} times at the first request"
+        elif n2 != 1:
+            bad5 = "a second request with nothing changed assembles again (the flag is not lowered)"
+        elif tags(a2) != tags(a1):
+            bad5 = f"a second request with nothing changed returns {tags(a2)}, the first returned {tags(a1)}"
+        elif n3 != 2:
+            bad5 = "after Need_Update() the next request does not assemble again"
+        elif tags(a3) != ["K2", "C2", "M2", "F2"]:
+            bad5 = f"after Need_Update() the request returns {tags(a3)}, the new assembly gave K2, C2, M2, F2"
+    except _XR5 as e:
+        bad5 = f"raises {e}"
+    if bad5:
+        r5.fail(f5.qualname, "flag", f5.file, f5.lineno, "_Simu.Get_K_C_M_F", bad5)
+    else:
+        r5.ok("_Simu.Get_K_C_M_F: assemble when dirty, then mark clean; clean -> the stored matrices; dirty again -> re-assemble")
     staggered_flags_rule(ctx, simu)
     ctx.attempt(mesh_index_rule, ctx)
 
